@@ -284,6 +284,7 @@ def protocol_signature(repo, f):
        (ops applied, whether its operands come from broadcast_inputs, whether the result is viewed to out_shape+(dim,),
         the empty-batch fallback)"""
     sig = {'broadcast': False, 'ops': set(), 'view_out_shape': False, 'empty_fallback': False, 'ops_on_broadcast': True}
+    f = __import__('sa.core', fromlist=['x']).ifexp_view(f)
     inl = inline_straight(f.node)
     bnames = set()
     for st, env in inl.log:
